@@ -595,7 +595,9 @@ theorem pending_open (w : World) (h : WOk w) (l : Nat) (hin : inContract w (.itO
     | false =>
       have hin' : (w.cifBusy e.cif || e.h.validB s.db) = true := by
         have : okLOpen w l = true := hin
-        unfold okLOpen at this; rw [hl] at this; exact this
+        unfold okLOpen LH.okB at this; rw [hl] at this
+        simp only [Bool.or_eq_true, Bool.and_eq_true] at this ⊢
+        exact this.imp id (fun h => h.1)
       rw [hb] at hin'
       have hv : e.h.validB s.db = true := by simpa using hin'
       have hsp := getPackets_spec_abs s e.h hg hv (h.autocommit hs hb)
